@@ -641,6 +641,36 @@ def r11(ctx, prog):
         pre = [st for st in add.stmts if st and st['k'] == 'UnaryOperator' and st.get('op') == '++' and not st.get('post')]
         n += 1
         ctx.ob('C09.R11', 'LogAddPrintfFunc|never-zero', bool(pre), 'ids are handed out by pre-increment from 0: the first is 1', where=add.loc(add.body))
+    # the cached time-stamp text is rebuilt exactly when the second it was built for differs from the record's second (time may also step back)
+    up = [g for g in prog.funcs.values() if g.short == 'updateTimestampStr' and not g.parent_usr]
+    for g in up:
+        par = g.params[0]['n'] if g.params else None
+        for blk in g.cfg.blocks.values():
+            if blk.cond is None or not any(x.endswith('timestamp_sec_') for x in q.subtree_fields(g, blk.cond)):
+                continue
+            bad = []
+            for c_ in range(0, 4):
+                for s_ in range(0, 4):
+                    v = q.eval_expr(g, blk.cond, lambda sx, c_=c_, s_=s_: c_ if (sx['k'] == 'MemberExpr' and sx.get('n') == 'timestamp_sec_') else
+                                    (s_ if (sx['k'] == 'DeclRefExpr' and sx.get('n') == par) else None))
+                    if v is None or bool(v) != (c_ != s_):
+                        bad.append((c_, s_))
+            n += 1
+            ctx.ob('C09.R11', '%s|timestamp-cache' % g.name, not bad, 'the cached date/time text is rebuilt exactly when its second differs from the record\'s' if not bad else
+                   'with the text cached for second %d and a record of second %d the cached text is %s: the record is written with another record\'s date and time' %
+                   (bad[0][0], bad[0][1], 'kept' if bad[0][0] != bad[0][1] else 'rebuilt needlessly'), where=g.loc(blk.cond))
+    # the file sink does not change files in the middle of a batch: within one flush() no write follows a close of the file
+    fl = prog.fn1('tbox::log::AsyncFileSink::flush')
+    wr = [c for c in fl.calls() if c.get('callee') in ('write', '::write') or (c.get('fn') == 'write' and c['k'] == 'CallExpr')]
+    cl = [c for c in fl.calls() if c.get('callee') in ('close', '::close')] + \
+         [st for st in fl.stmts if st and st['k'] == 'BinaryOperator' and st.get('op') == '=' and (fl.field_of(st['ch'][0]) or '').endswith('::fd_')]
+    if not wr:
+        raise AnalysisBroken('AsyncFileSink::flush: write() not found')
+    split = [(c_, w_) for c_ in cl for w_ in wr if fl.cfg.exists_path(q.pt_or_term(fl, c_), q.pt(fl, w_))]
+    n += 1
+    ctx.ob('C09.R11', '%s|batch-one-file' % fl.name, not split, 'within one flush() nothing is written after the file was closed: a batch of records goes to one file' if not split else
+           'flush() can close the file at %s and write more of the same batch at %s: the batch is cut at a byte position that need not be a record boundary (a record whose text '
+           'contains a line break is split over two files)' % (fl.loc(split[0][0]['i']), fl.loc(split[0][1]['i'])), where=fl.loc(split[0][1]['i']) if split else fl.loc(fl.body))
     if n < 6:
         raise AnalysisBroken('expected >= 6 framing/sentinel tests in the sinks, found %d' % n)
 
